@@ -124,12 +124,27 @@ let run_r (line : string) =
       (match jump_target thunk bs with Some a -> hex_of_z a | None -> "none")
   | _ -> print_endline "BAD"
 
+(* B <thunk> <bbv> <handler> <to>: _MIR_get_bb_thunk then _MIR_replace_bb_thunk, with the C code's truncation *)
+let run_b (line : string) =
+  match words line with
+  | ["B"; th; bv; h; t] ->
+    let thunk = z_of_hex th and bbv = z_of_hex bv and handler = z_of_hex h and to_ = z_of_hex t in
+    let b1 = get_bb_thunk_bytes thunk bbv handler in
+    let b2 = replace_bb_thunk_bytes b1 thunk to_ in
+    Printf.printf "bytes=%s r10=%s tgt=%s bytes2=%s tgt2=%s\n" (hex_of_bytes b1)
+      (match bb_thunk_exec thunk b1 with Some (r, _) -> hex_of_z r | None -> "none")
+      (match bb_thunk_exec thunk b1 with Some (_, a) -> hex_of_z a | None -> "none")
+      (hex_of_bytes b2)
+      (match jump_target thunk b2 with Some a -> hex_of_z a | None -> "none")
+  | _ -> print_endline "BAD"
+
 let () =
   try
     while true do
       let line = input_line stdin in
       if String.length line = 0 then print_endline ""
       else if line.[0] = 'R' then run_r line
+      else if line.[0] = 'B' then run_b line
       else if line.[0] = 'H' then run_h line
       else print_endline "BAD"
     done
